@@ -129,6 +129,8 @@ type vC02HWorld struct {
 	fin      map[vC02HSel]uint64 // the message reader holds sequence numbers <= fin
 	ver      map[vC02HSel]int    // content version of the chain's messages (a reorganisation bumps it)
 	msgMode  map[vC02HSel]string
+	hostile  bool             // history with an adversarial message reader
+	shift    map[vC02HSel]int // reader mode shift-unordered / mid-out: by how much the window is off
 	order    []int // order in which KnownSourceChainsSlice lists the chains
 }
 
@@ -136,7 +138,7 @@ func vC02HNewWorld(r *vRand, universe []vC02HSel) *vC02HWorld {
 	w := &vC02HWorld{universe: universe, known: map[vC02HSel]bool{}, sup: map[vC02HSel]bool{}, sd: true,
 		fch: map[vC02HSel]int{}, off: map[vC02HSel]uint64{}, on: map[vC02HSel]uint64{}, cursed: map[vC02HSel]bool{},
 		expErr: map[vC02HSel]bool{}, expZero: map[vC02HSel]bool{}, addr: map[vC02HSel][]byte{}, addrErr: map[vC02HSel]bool{},
-		fin: map[vC02HSel]uint64{}, ver: map[vC02HSel]int{}, msgMode: map[vC02HSel]string{}, order: r.Perm(len(universe))}
+		fin: map[vC02HSel]uint64{}, ver: map[vC02HSel]int{}, msgMode: map[vC02HSel]string{}, shift: map[vC02HSel]int{}, order: r.Perm(len(universe))}
 	w.fch[vC02Dest] = 1
 	high := r.Chance(1, 8) // a history whose sequence numbers sit just below 2^64
 	for _, k := range universe {
@@ -201,7 +203,12 @@ func (w *vC02HWorld) step(r *vRand, aspect string) {
 			w.ver[k]++
 		}
 		if may("reader") {
-			w.msgMode[k] = vPick(r, []string{"honest", "honest", "honest", "honest", "unordered", "error", "gap", "dup", "hasher", "short"})
+			w.msgMode[k] = vPick(r, []string{"honest", "honest", "honest", "honest", "unordered", "error", "gap", "dup", "hasher", "short",
+				"shift-unordered", "shift-unordered", "mid-out", "inner-dup", "inner-foreign"})
+			if w.hostile { // a reader that answers with the right count and plausible ends but not the interval
+				w.msgMode[k] = vPick(r, []string{"honest", "shift-unordered", "shift-unordered", "shift-unordered", "mid-out", "inner-dup", "inner-foreign", "unordered"})
+			}
+			w.shift[k] = vPick(r, []int{1, -1, 2, -2})
 			w.expErr[k] = r.Chance(1, 12)
 			w.expZero[k] = r.Chance(1, 20)
 		}
@@ -283,8 +290,52 @@ func (w *vC02HWorld) answer(k vC02HSel, rg cciptypes.SeqNumRange) ([]cciptypes.M
 		if n >= 1 {
 			ms = ms[:n-1]
 		}
+	case "shift-unordered":
+		// the window of the right size moved by shift, in-range messages first and last, the out-of-range ones between
+		// them (4,6,5 / 3,2,4 for [3->5])
+		d := w.shift[k]
+		lo, hi := uint64(rg.Start()), uint64(rg.End())
+		if n >= 3 && uint64(n) == hi-lo+1 && n-vC02HAbs(d) >= 2 && lo >= 2 && hi <= vC02Max-2 {
+			var in, out []cciptypes.Message
+			for q := lo; q <= hi; q++ {
+				x := q + uint64(int64(d))
+				if x >= lo && x <= hi {
+					in = append(in, w.msg(k, x))
+				} else {
+					out = append(out, w.msg(k, x))
+				}
+			}
+			ms = append(append([]cciptypes.Message{in[0]}, out...), in[1:]...)
+		}
+	case "mid-out": // right count, ends in range, one middle message outside
+		lo, hi := uint64(rg.Start()), uint64(rg.End())
+		if n >= 3 && lo >= 2 && hi <= vC02Max-2 {
+			x := hi + 1
+			if w.shift[k] < 0 {
+				x = lo - 1
+			}
+			ms[n/2] = w.msg(k, x)
+			if w.shift[k]%2 == 0 {
+				ms[0], ms[n-1] = ms[n-1], ms[0]
+			}
+		}
+	case "inner-dup":
+		if n >= 3 {
+			ms[n/2] = ms[0]
+		}
+	case "inner-foreign":
+		if n >= 3 {
+			ms[n/2].Header.SourceChainSelector = k + 16
+		}
 	}
 	return ms, nil
+}
+
+func vC02HAbs(d int) int {
+	if d < 0 {
+		return -d
+	}
+	return d
 }
 
 type vC02HSupport struct{ w *vC02HWorld }
@@ -709,10 +760,14 @@ func TestVerif_C02_hist(t *testing.T) {
 	for hidx := 0; hidx < nHist; hidx++ {
 		nOr := vPick(r, []int{4, 4, 7})
 		F := (nOr - 1) / 3
-		tree := vPick(r, []uint64{1, 2, 3, 4, 256})
+		tree := vPick(r, []uint64{1, 2, 3, 4, 8, 256})
 		max := vPick(r, []uint64{1, 2, 3, 5})
 		aspect := aspects[hidx%len(aspects)]
 		w := vC02HNewWorld(r, universe)
+		w.hostile = (aspect == "" || aspect == "reader") && r.Chance(1, 2)
+		if w.hostile && tree < 3 {
+			tree = vPick(r, []uint64{3, 4, 8})
+		}
 		if nOr == 7 && r.Bool() {
 			for _, k := range universe {
 				w.fch[k] = 1 + r.Intn(2)
@@ -926,6 +981,15 @@ func TestVerif_C02_hist(t *testing.T) {
 					cls += "/only-" + aspect
 				}
 				nt := ntB || (st != BuildingReport && (len(ob.OffRampNextSeqNums) > 0 || len(ob.OnRampMaxSeqNums) > 0))
+				if building {
+					for _, cr := range fed.RangesSelectedForReport {
+						if m := w.msgMode[cr.ChainSel]; m != "honest" && cr.SeqNumRange.End() >= cr.SeqNumRange.Start() &&
+							uint64(cr.SeqNumRange.End()-cr.SeqNumRange.Start()) >= 2 && uint64(cr.SeqNumRange.End()) <= w.fin[cr.ChainSel] {
+							cls += "/reader-" + m
+							break
+						}
+					}
+				}
 				sinkB.Emit("C02_hobs", cls, nt, cPair(in, out), map[string]any{"history": hidx, "round": rnd, "state": stName,
 					"prev": prevKind, "ranges": len(fed.RangesSelectedForReport), "roots": len(ob.MerkleRoots), "panic": panicked})
 			}
